@@ -263,6 +263,62 @@ NARROW_DTYPES = {'np.uint8', 'np.int8', 'np.uint16', 'np.int16', 'bool', 'np.boo
                  'np.ushort', 'np.float16', "'float16'", 'np.half'}
 
 
+def _sized_counters(index, rep, f: Func, rule: str) -> None:
+    """counters whose element type is computed from a size (`np.min_scalar_type(h * w)`),
+    possibly in a helper of another module: the size is folded at view shapes with 256 or more
+    rays ((H+1)(W+1): 15x15, 7x31) and must reach the number of rays"""
+    from ..view import view
+    node, w, _ = view(index, f)
+    gname = f.node.args.args[0].arg
+    for n in ast.walk(node):
+        if not (isinstance(n, ast.Call) and src(n.func).split('.')[-1] in (
+                'zeros', 'empty', 'full', 'ones')):
+            continue
+        dt = next((k.value for k in n.keywords if k.arg == 'dtype'),
+                  n.args[1] if len(n.args) > 1 and src(n.func).split('.')[-1] != 'full'
+                  else None)
+        if dt is None:
+            continue
+        dte = w.expand(dt)
+        if not (isinstance(dte, ast.Call) and src(dte.func).split('.')[-1] == 'min_scalar_type'
+                and len(dte.args) == 1):
+            continue
+        size = dte.args[0]
+        bad = None
+        for H, W in ((15, 15), (7, 31), (31, 7)):
+            def ev(e):
+                if isinstance(e, ast.Constant) and isinstance(e.value, int):
+                    return e.value
+                t = src(e)
+                if t.endswith('.height') or t.endswith('.shape[0]') or t.endswith('as_tuple[0]'):
+                    return H
+                if t.endswith('.width') or t.endswith('.shape[1]') or t.endswith('as_tuple[1]'):
+                    return W
+                if isinstance(e, ast.BinOp) and isinstance(e.op, (ast.Add, ast.Sub, ast.Mult)):
+                    a, b = ev(e.left), ev(e.right)
+                    if a is None or b is None:
+                        return None
+                    return a + b if isinstance(e.op, ast.Add) else (
+                        a - b if isinstance(e.op, ast.Sub) else a * b)
+                return None
+            v = ev(size)
+            if v is None:
+                rep.undecided(rule, f'{VIS}:{f.name}:{n.lineno}',
+                              f'counter sized by `{src(size)[:60]}`: not a polynomial in the '
+                              f'grid shape the rule folds')
+                bad = None
+                break
+            if v < (H + 1) * (W + 1) and v < 256 <= (H + 1) * (W + 1):
+                bad = (H, W, v)
+                break
+        if bad:
+            rep.violation(rule, VIS, f.name, n.lineno, src(n)[:100],
+                          f'a ray counter is sized by `{src(size)[:60]}` = {bad[2]} for a '
+                          f'{bad[0]}x{bad[1]} view, but the fan has ({bad[0]}+1)({bad[1]}+1) = '
+                          f'{(bad[0] + 1) * (bad[1] + 1)} rays through the origin cell: the count '
+                          f'wraps and the agent\'s own cell is reported hidden')
+
+
 def _narrow_counters(rep, node: ast.FunctionDef, name: str, rule: str = 'C06.R4') -> None:
     """whatever the counting loop looks like (per cell, per ray with fancy indexing,
     `np.add.at`): an array that is incremented holds up to one count per ray of the fan -- the
@@ -305,6 +361,7 @@ def check_ray_function(index, rep, f: Func) -> Optional[ast.For]:
     node, inl = inlined_function(index, f)
     node = _opacity_tables_to_cells(node, gname)
     _narrow_counters(rep, node, name)
+    _sized_counters(index, rep, f, 'C06.R4')
     outer, inner = ray_loop(node)
     if outer is None:
         # rays counted some other way (vectorised, library call): not a verdict
